@@ -78,3 +78,33 @@ Check C06_end_to_end_witness : forall u : bool, exists (s' : state) (rf : bool) 
 Print Assumptions C06_end_to_end_witness.
 
 
+
+(** ---- over ALL histories: the squawk shown is that of the most recent DF5/DF21 reply ---- *)
+From SQ Require Import Base Table Update Id13 TableProofs LatestWins.
+Local Open Scope N_scope.
+
+(** for every stream, the squawk column of the final table equals a reference fold that only knows the classification of each line, the specified identity code of DF5/21 frames and which rows survive -- frames of other formats and of other aircraft never matter *)
+Theorem C06_latest_wins : forall o : opts, (0 < delete_after o)%Z -> forall (now : Z) (s : state) (ls : list (option (list N))) (s' : state), run_lines o now s ls = Ok s' -> NoDup (keys (tbl s)) -> forall a : N, option_map r_squawk (lookup (tbl s') a) = rlookup (sq_ref_run o (proj r_squawk (tbl s)) (history o now s ls)) a.
+Proof. exact squawk_latest_wins. Qed.
+Check C06_latest_wins : forall o : opts, (0 < delete_after o)%Z -> forall (now : Z) (s : state) (ls : list (option (list N))) (s' : state), run_lines o now s ls = Ok s' -> NoDup (keys (tbl s)) -> forall a : N, option_map r_squawk (lookup (tbl s') a) = rlookup (sq_ref_run o (proj r_squawk (tbl s)) (history o now s ls)) a.
+Print Assumptions C06_latest_wins.
+
+(** in particular: after the last DF5/DF21 line of an aircraft (DF21 only if the row already existed) the squawk shown is that line's identity code, whatever follows from other formats *)
+Theorem C06_latest_reply : forall o : opts, (0 < delete_after o)%Z -> forall (now : Z) (s : state) (pre : list (option (list N))) (line : list N) (post : list (option (list N))) (s' : state) (df a : N) (m : list N), run_lines o now s (pre ++ Some line :: post) = Ok s' -> classify o line = Ok (Applied df a) -> get_message line = Ok (Some m) -> df = 5 \/ df = 21 /\ (forall s1 : state, run_lines o now s pre = Ok s1 -> In a (keys (tbl s1))) -> (forall l : option (list N), In l post -> sq_line o a l = false) -> exists r : row, lookup (tbl s') a = Some r /\ r_squawk r = Some (id_spec m).
+Proof. exact squawk_is_latest_df5_21. Qed.
+Check C06_latest_reply : forall o : opts, (0 < delete_after o)%Z -> forall (now : Z) (s : state) (pre : list (option (list N))) (line : list N) (post : list (option (list N))) (s' : state) (df a : N) (m : list N), run_lines o now s (pre ++ Some line :: post) = Ok s' -> classify o line = Ok (Applied df a) -> get_message line = Ok (Some m) -> df = 5 \/ df = 21 /\ (forall s1 : state, run_lines o now s pre = Ok s1 -> In a (keys (tbl s1))) -> (forall l : option (list N), In l post -> sq_line o a l = false) -> exists r : row, lookup (tbl s') a = Some r /\ r_squawk r = Some (id_spec m).
+Print Assumptions C06_latest_reply.
+
+(** the stated exception is real: a DF21 reply that creates the row contributes the address only *)
+Theorem C06_creating_df21 : forall o : opts, (0 < delete_after o)%Z -> forall (now : Z) (s : state) (pre : list (option (list N))) (line : list N) (post : list (option (list N))) (s' : state) (a : N) (m : list N), run_lines o now s (pre ++ Some line :: post) = Ok s' -> classify o line = Ok (Applied 21 a) -> get_message line = Ok (Some m) -> (forall s1 : state, run_lines o now s pre = Ok s1 -> lookup (tbl s1) a = None) -> (forall l : option (list N), In l post -> sq_line o a l = false) -> exists r : row, lookup (tbl s') a = Some r /\ r_squawk r = None.
+Proof. exact squawk_df21_creating. Qed.
+Check C06_creating_df21 : forall o : opts, (0 < delete_after o)%Z -> forall (now : Z) (s : state) (pre : list (option (list N))) (line : list N) (post : list (option (list N))) (s' : state) (a : N) (m : list N), run_lines o now s (pre ++ Some line :: post) = Ok s' -> classify o line = Ok (Applied 21 a) -> get_message line = Ok (Some m) -> (forall s1 : state, run_lines o now s pre = Ok s1 -> lookup (tbl s1) a = None) -> (forall l : option (list N), In l post -> sq_line o a l = false) -> exists r : row, lookup (tbl s') a = Some r /\ r_squawk r = None.
+Print Assumptions C06_creating_df21.
+
+(** non-vacuity: a concrete interleaved history of five aircraft (DF5/17/21, junk, non-UTF-8) run through model and reference fold, both -U settings *)
+Theorem C06_history_witness : forall u : bool, exists s' : state, run_lines (EndToEnd.ex_opts u) 1000 wit_s0 wit_lines = Ok s' /\ proj r_squawk (tbl s') = [(1340132, Some 3615); (8360486, Some 3615); (4735190, None); (4219421, None); (11283562, None)] /\ sq_ref_run (EndToEnd.ex_opts u) [] (history (EndToEnd.ex_opts u) 1000 wit_s0 wit_lines) = [(1340132, Some 3615); (8360486, Some 3615); (4735190, None); (4219421, None); (11283562, None)] /\ proj r_ais (tbl s') = [(1340132, None); (8360486, None); (4735190, Some [75; 76; 77; 49; 48; 50; 51]); ( 4219421, None); (11283562, None)] /\ cs_ref_run (EndToEnd.ex_opts u) [] (history (EndToEnd.ex_opts u) 1000 wit_s0 wit_lines) = [(1340132, None); (8360486, None); (4735190, Some [75; 76; 77; 49; 48; 50; 51]); ( 4219421, None); (11283562, None)].
+Proof. exact witness_history. Qed.
+Check C06_history_witness : forall u : bool, exists s' : state, run_lines (EndToEnd.ex_opts u) 1000 wit_s0 wit_lines = Ok s' /\ proj r_squawk (tbl s') = [(1340132, Some 3615); (8360486, Some 3615); (4735190, None); (4219421, None); (11283562, None)] /\ sq_ref_run (EndToEnd.ex_opts u) [] (history (EndToEnd.ex_opts u) 1000 wit_s0 wit_lines) = [(1340132, Some 3615); (8360486, Some 3615); (4735190, None); (4219421, None); (11283562, None)] /\ proj r_ais (tbl s') = [(1340132, None); (8360486, None); (4735190, Some [75; 76; 77; 49; 48; 50; 51]); ( 4219421, None); (11283562, None)] /\ cs_ref_run (EndToEnd.ex_opts u) [] (history (EndToEnd.ex_opts u) 1000 wit_s0 wit_lines) = [(1340132, None); (8360486, None); (4735190, Some [75; 76; 77; 49; 48; 50; 51]); ( 4219421, None); (11283562, None)].
+Print Assumptions C06_history_witness.
+
+
